@@ -4,6 +4,7 @@ import Driver.NodeIO
 import Driver.CidIO
 import Driver.Monitor
 import Driver.HandlerVal
+import Driver.ConnVal
 open Beetswap
 
 def splitAt (bs : List Nat) (cuts : List Nat) : List (List Nat) :=
@@ -131,8 +132,35 @@ def hvalidateMain (file : String) : IO Unit := do
     | none => pure ()
   out.putStrLn s!"hvalidated connections={order.length} lines={lines.length} rejected={bad}"
 
+/-- `bsdriver cvalidate <handler log>`: the same log, replayed deterministically (probe lines)
+through `Model/ConnHandler`. -/
+def cvalidateMain (file : String) : IO Unit := do
+  let lines := ((← IO.FS.readFile file).splitOn "\n").filter (!·.isEmpty)
+  let out ← IO.getStdout
+  let mut groups : Std.HashMap String (Array String) := {}
+  let mut order : List String := []
+  for l in lines do
+    match l.splitOn " " with
+    | r :: n :: c :: _p :: rest =>
+      let key := s!"{r} {n} {c}"
+      if !groups.contains key then order := key :: order
+      groups := groups.alter key fun a => some ((a.getD #[]).push (" ".intercalate rest))
+    | _ => pure ()
+  let mut bad := 0
+  let mut polls := 0
+  for key in order.reverse do
+    let ls := (groups.getD key #[]).toList
+    polls := polls + (ls.filter (·.startsWith "x poll")).length
+    match Driver.ConnVal.validate ls with
+    | some (i, l, why) =>
+      bad := bad + 1
+      out.putStrLn s!"cviol {key} event {i}: `{l}`: {why}"
+    | none => pure ()
+  out.putStrLn s!"cvalidated connections={order.length} lines={lines.length} polls={polls} rejected={bad}"
+
 def main (args : List String) : IO Unit := do
   match args with
   | ["monitor", ops, imp] => monitorMain ops imp
   | ["hvalidate", file] => hvalidateMain file
+  | ["cvalidate", file] => cvalidateMain file
   | _ => loop (← IO.getStdin) (← IO.getStdout) {}
